@@ -1093,7 +1093,11 @@ class DeterministicOde(BaseOdeModel):
         else:
             eval_param = [state] + [time]
 
-        return eval_param + self._paramValue
+        # fixed-width numpy integers (elements of an int32/int64 array, np.int32(...))
+        # are handed over as Python integers: integer arithmetic inside the compiled
+        # functions would otherwise overflow silently (N*N*N with N = int32(2000))
+        return [v.item() if isinstance(v, np.integer) else v
+                for v in eval_param + self._paramValue]
 
 
 
